@@ -143,18 +143,12 @@ pub fn place<A: Codec>(content: &[A], s: usize, variant: usize) -> Placed<A> {
     }
 }
 
-/// Like `place`, but the parent is itself copied out of a larger sequence at
-/// symbol offset `ph`, so (on trees where copies keep the source alignment) its
-/// internal bit vector starts at a non-zero head.
+/// Like `place`, but the parent is an owned sequence whose internal bit vector starts at the
+/// bit offset of symbol `ph` (see `owned_headed`).
 pub fn place_headed<A: Codec>(content: &[A], s: usize, variant: usize, ph: usize) -> Placed<A> {
     let inner = flanked(content, s, variant);
-    let al = alphabet::<A>();
-    let mut g: Vec<A> = (0..ph).map(|j| al[(j * 7 + 3) % al.len()]).collect();
-    g.extend_from_slice(&inner);
-    let grand = build(&g);
-    let parent: Seq<A> = grand[ph..].to_owned();
     Placed {
-        parent,
+        parent: owned_headed(&inner, ph),
         s,
         n: content.len(),
     }
@@ -165,6 +159,53 @@ pub fn place_headed<A: Codec>(content: &[A], s: usize, variant: usize, ph: usize
 pub fn owned_from_offset<A: Codec>(content: &[A], ph: usize) -> Seq<A> {
     let p = place(content, ph, 1);
     p.view().to_owned()
+}
+
+/// An owned sequence holding `content` whose internal bit vector has head bit
+/// index `(ph * BITS) % 64`.  First choice: copy it out of an offset slice (on
+/// trees where copies keep the source alignment that already gives the head).
+/// Otherwise the value is built through the crate's public `Deserialize` impl
+/// from bitvec's documented serial form with that head and with the dead bits
+/// before the head and after the tail set, which is a legal `Seq` value.
+pub fn owned_headed<A: Codec>(content: &[A], ph: usize) -> Seq<A> {
+    let want = (ph * A::BITS as usize) % 64;
+    let copied = owned_from_offset(content, ph);
+    if want == 0 || head_of(&copied) == Some(want as u64) {
+        return copied;
+    }
+    match headed_via_serde(content, want) {
+        Some(s) if s.len() == content.len() => s,
+        _ => copied,
+    }
+}
+
+/// Build `Seq<A>` from `{"_p":null,"bv":{"order":..,"head":{"width":64,"index":h},"bits":n,"data":[..]}}`.
+pub fn headed_via_serde<A: Codec>(content: &[A], head: usize) -> Option<Seq<A>> {
+    let bits = content.len() * A::BITS as usize;
+    let cs = codes(content);
+    let words = (head + bits + 63) / 64;
+    let mut data = vec![0u64; words.max(if bits == 0 { 0 } else { 1 })];
+    for (i, c) in cs.iter().enumerate() {
+        for b in 0..A::BITS as usize {
+            if (c >> b) & 1 == 1 {
+                let p = head + i * A::BITS as usize + b;
+                data[p / 64] |= 1 << (p % 64);
+            }
+        }
+    }
+    // dead bits: before the head and after the tail
+    if !data.is_empty() {
+        for p in 0..head {
+            data[0] |= 1 << p;
+        }
+        for p in head + bits..64 * data.len() {
+            if p % 2 == 1 {
+                data[p / 64] |= 1 << (p % 64);
+            }
+        }
+    }
+    let j = serde_json::json!({"_p": null, "bv": {"order": "bitvec::order::Lsb0", "head": {"width": 64, "index": if bits == 0 && data.is_empty() { 0 } else { head }}, "bits": bits, "data": data}});
+    serde_json::from_value(j).ok()
 }
 
 /// Internal head bit index of an owned sequence, read from bitvec's public
